@@ -65,6 +65,11 @@ def run(prog, chk):
     for_element(prog, chk)
     if_element(prog, chk)
     condition_truth(prog, chk)
+    var_assigned_in_rendering_passes(prog, chk)
+    extent_accumulation(prog, chk)
+    from props import geomalg
+    n = geomalg.check_sites(prog, chk, "C16")
+    chk.floor("A17.site-algebra", n, 5, "loop parameter default case")
 
 
 def loop_element(prog, chk):
@@ -328,3 +333,56 @@ def condition_truth(prog, chk):
                 ok = rv["op"] == "Ne" and zero
                 detail = f"{rv['op']} {k.get('float')}"
     chk.ob(ok, "A15.condition-truth", "eval_condition", ec.where(), "a condition is true iff its numeric value is != 0 (negative values are true)", f"eval_condition maps the value with `{detail}` instead of `!= 0`")
+
+
+def var_assigned_in_rendering_passes(prog, chk):
+    """the loop variable (and the <for> item / index variables) are assigned only in passes that render the body: from
+    every set_var inside the loop, the loop cannot be left without processing the body first"""
+    for path, what in ((LOOP, "LoopElement"), (FOR, "ForElement")):
+        b = prog.body(path)
+        bodies = [bb for (bb, t, c) in b.call_sites(R.path_is(PE))]
+        if not bodies:
+            chk.anchor_missing("A13.var-before-body", f"{what}: process_events call not found")
+            continue
+        lp = _main_loop(b, bodies[0])
+        if lp is None:
+            chk.anchor_missing("A13.var-before-body", f"{what}: loop not found")
+            continue
+        h, blocks = lp
+        sets = [(bb, t) for (bb, t, c) in b.call_sites(lambda c: c.path.endswith("TransformerContext::set_var")) if bb in blocks and not _is_after(b, bodies[0], bb, blocks, h)]
+        exits = {x for y in blocks for x in b.succs(y) if x not in blocks}
+        for k, (bb, t) in enumerate(sets):
+            # paths that leave through an error (`?`) are not a normal loop exit: only exits that reach a normal return count
+            leak = [x for x in b.reach([bb], avoid=set(bodies)) & exits if _normal_exit(b, x)]
+            chk.ob(not leak, "A13.var-before-body", f"{what}:set_var#{k + 1}", b.where(bb, t.get("line")), "after the variable is assigned the body is always rendered in that pass", f"{what}: the variable is assigned and the loop can then end without rendering the body: after the loop the variable holds a value no rendered pass ever saw (and an existing variable is overwritten by a loop that runs zero times)")
+        chk.floor("A13.var-before-body", len(sets), 1, f"set_var before the body in {what}") if what == "LoopElement" else None
+
+
+def _is_after(b, body_bb, bb, blocks, h):
+    """is bb reachable from the body within one pass (without going through the header)?"""
+    return bb in b.reach([body_bb], avoid={h}) and bb != body_bb
+
+
+def _normal_exit(b, x):
+    """does block x (outside the loop) reach a return that assigns Ok to _0?"""
+    r = b.reach([x])
+    for y in r:
+        for st in b.stmts(y):
+            if "lhs" in st and st["lhs"][0] == 0 and not st["lhs"][1] and st["rv"].get("variant") == "Ok":
+                return True
+    return False
+
+
+def extent_accumulation(prog, chk):
+    """every element kind that renders a body repeatedly accumulates the per-pass bounding boxes with
+    BoundingBoxBuilder::extend, guarded only by `that pass produced a box`, and returns build()"""
+    n = 0
+    for path, what in ((LOOP, "LoopElement"), (FOR, "ForElement")):
+        b = prog.body(path)
+        ext = b.call_sites(R.path_endswith("BoundingBoxBuilder::extend"))
+        bld = b.call_sites(R.path_endswith("BoundingBoxBuilder::build"))
+        bodies = [bb for (bb, t, c) in b.call_sites(R.path_is(PE))]
+        lp = _main_loop(b, bodies[0]) if bodies else None
+        ok = bool(ext) and bool(bld) and lp is not None and all(bb in lp[1] for (bb, t, c) in ext)
+        n += len(ext)
+        chk.ob(ok, "A16.extent-accumulation", what, b.where(), f"{what} unions the boxes of all passes with BoundingBoxBuilder (extend in the loop, build at the end)", f"{what} no longer accumulates its extent with BoundingBoxBuilder::extend/build like the other repeating elements: a pass that renders nothing, or the first pass, can drop the accumulated extent")
